@@ -1,15 +1,22 @@
 """C11 - facility messages faithfully encode the sensor input they were built from.
 
-Decides: (a) every value the builders put into a CAM / VAM / DENM dictionary fits the ASN.1 type at that position -
-shape (dict / (name, value) tuple / (bytes, bits) pair / enumerator string), member and alternative names, enumerators,
-mandatory members of the white templates, and for INTEGERs the range reachable from the quantifier's input ranges
-(interval interpretation with guard refinement); (b) the scaling coefficient of position / speed / heading values;
-(c) what the readers of decoded messages subscript; (d) that a measured value can never land on an element's
-`unavailable` code point; (e) generationDeltaTime: the receiver-side reconstruction as a formula identity (same cycle /
-one cycle earlier, decided by the comparison with the reception time), the wrap-aware difference, and that sender code
-never orders two generationDeltaTime values other than through that difference.  (a)-(d) are exactly the conditions
-under which the encoder raises, wraps or silently drops a value.
-Does not decide bit-exact UPER output nor truncation vs rounding.
+Decides: (a) schema: every value the builders put into a CAM / VAM / DENM dictionary - white templates, subscript
+stores, builder return values, lists grown element by element, names selected from constant tables, and dictionaries
+that reach a message by reference through a request object (the DENM event position; each hop of that alias flow is
+re-established on every run) - fits the ASN.1 type at that position: shape (dict / (name, value) tuple / (bytes, bits)
+pair / enumerator string), member and alternative names, enumerators, mandatory members; range: for INTEGERs the range
+reachable from the quantifier's input ranges (interval interpretation with guard refinement; a value computed from the
+inputs with no bound at all fails); (b) unit: the scaling coefficient of position / speed / heading values; (c) what the
+readers of decoded messages subscript exists in the type (schema); (d) that a measured value can never land on an
+element's `unavailable` code point (range, `codepoint` instances); (e) gdt: the receiver-side reconstruction as a
+formula identity (whole cycles of the reception time; same cycle exactly when not later than it, else one cycle
+earlier; both returned), anchored at every call site (CAM and VAM reception) at the wall clock scaled to milliseconds
+BEFORE truncation; GenerationDeltaTime.__sub__ = (a - b) mod 65536, and no sender code ordering two
+generationDeltaTime values other than through that difference; (f) report-keys: in the CAM / VAM transmission modules every report['k']
+read is dominated by a presence test of that key, so a report lacking an optional field cannot raise KeyError.
+(a)-(d), (f) are the conditions under which the encoder or builder raises, wraps or silently drops a value.
+Does not decide bit-exact UPER output, truncation vs rounding of int(), nor "no report stalls generation" beyond (f)
+and the re-arming rule of C10.
 """
 from __future__ import annotations
 
